@@ -566,6 +566,14 @@ enum StopKind { Token, Sigint, SigintTwice }
 
 struct Run { obs: Vec<Obs>, ret: Option<u64>, seen: HashMap<i64, SocketAddr> }
 
+/// the family whose cases are being generated (for the watchdog, which has to print a case on its own)
+static CUR_FAM: Mutex<&'static str> = Mutex::new("?");
+/// the longest real time the runtime thread may stay away from the heartbeat in a run with a probe
+const LAG_BOUND_MS: u64 = 2500;
+static MAX_LAG_MS: std::sync::atomic::AtomicU64 = std::sync::atomic::AtomicU64::new(0);
+/// real seconds one case may take before the runtime thread is considered blocked for good
+const WATCHDOG_S: u64 = 60;
+
 fn free_port() -> u16 {
     let l = std::net::TcpListener::bind("127.0.0.1:0").unwrap();
     l.local_addr().unwrap().port()
@@ -578,7 +586,20 @@ fn run_case(mode: u8, cfg: &Cfg, conns: &[ConnScript], stop: Option<(u64, StopKi
     let (cfg, conns) = (cfg.clone(), conns.to_vec());
     local.block_on(&rt, async move {
         let t0 = Instant::now();
-        let heartbeat = tokio::spawn(async { loop { tokio::time::sleep(Duration::from_millis(1)).await; } });
+        // the heartbeat keeps the paused clock moving in 1 ms steps - and measures the longest REAL time the runtime thread
+        // stayed away from it: a blocking call in any connection's path (a blocking close, a sleep, a contended lock) stalls
+        // every other connection for exactly that long
+        let lag = Arc::new(std::sync::atomic::AtomicU64::new(0));
+        let lag2 = lag.clone();
+        let heartbeat = tokio::spawn(async move {
+            let mut last = std::time::Instant::now();
+            loop {
+                tokio::time::sleep(Duration::from_millis(1)).await;
+                let now = std::time::Instant::now();
+                lag2.fetch_max(now.duration_since(last).as_millis() as u64, std::sync::atomic::Ordering::Relaxed);
+                last = now;
+            }
+        });
         let port = free_port();
         let token = CancellationToken::new();
         let ret: Arc<Mutex<Option<u64>>> = Arc::new(Mutex::new(None));
@@ -635,6 +656,28 @@ fn run_case(mode: u8, cfg: &Cfg, conns: &[ConnScript], stop: Option<(u64, StopKi
             cells.push(o.clone());
             tasks.push(tokio::spawn(client(t0, port, cs.clone(), cfg.clone(), o)));
         }
+        // watchdog (a plain thread): a handler that blocks the runtime thread for good (a lock taken twice, a blocking
+        // close) freezes this whole run.  After WATCHDOG_S real seconds the case is printed with what was observed until
+        // then - nothing completed, nothing closed - and the process ends; the checker judges it like any other case.
+        let finished = Arc::new(std::sync::atomic::AtomicBool::new(false));
+        {
+            let (fin, cells2, cfg2, conns2, log2) = (finished.clone(), cells.clone(), cfg.clone(), conns.clone(), ads.log.clone());
+            let fam = *CUR_FAM.lock().unwrap();
+            std::thread::spawn(move || {
+                for _ in 0..(WATCHDOG_S * 10) {
+                    std::thread::sleep(std::time::Duration::from_millis(100));
+                    if fin.load(std::sync::atomic::Ordering::SeqCst) { return; }
+                }
+                let obs = cells2.iter().map(|c| c.lock().unwrap().clone()).collect();
+                let mut seen = HashMap::new();
+                if let Ok(l) = log2.try_lock() { for (id, _, a) in l.iter() { seen.entry(*id).or_insert(*a); } }
+                let run = Run { obs, ret: None, seen };
+                emit(fam, 0, &cfg2, &conns2, stop, end_ms, &run);
+                emit_note("watchdog", "the runtime thread did not come back: case printed by the watchdog, run ended");
+                use std::io::Write; let _ = std::io::stdout().flush();
+                std::process::exit(0);
+            });
+        }
         if let Some((ts, kind)) = stop {
             tokio::time::sleep_until(t0 + Duration::from_millis(ts)).await;
             match kind {
@@ -652,12 +695,19 @@ fn run_case(mode: u8, cfg: &Cfg, conns: &[ConnScript], stop: Option<(u64, StopKi
             }
         }
         tokio::time::sleep_until(t0 + Duration::from_millis(end_ms)).await;
+        finished.store(true, std::sync::atomic::Ordering::SeqCst);
         let returned = *ret.lock().unwrap();
         for t in &tasks { t.abort(); }
         token.cancel();
         server.abort();
         heartbeat.abort();
-        let obs = cells.iter().map(|c| c.lock().unwrap().clone()).collect();
+        let mut obs: Vec<Obs> = cells.iter().map(|c| c.lock().unwrap().clone()).collect();
+        // no client could have been served while the runtime thread was away: a probe of a run in which it was away for
+        // longer than the probe's own real-time bound counts as not served in time
+        MAX_LAG_MS.fetch_max(lag.load(std::sync::atomic::Ordering::Relaxed), std::sync::atomic::Ordering::Relaxed);
+        if lag.load(std::sync::atomic::Ordering::Relaxed) > LAG_BOUND_MS {
+            for (o, c) in obs.iter_mut().zip(conns.iter()) { if c.beh == Beh::Probe { o.done = None; o.status = false; } }
+        }
         let mut seen = HashMap::new();
         for (id, _, a) in ads.log.lock().unwrap().iter() { seen.entry(*id).or_insert(*a); }
         Run { obs, ret: returned, seen }
@@ -763,7 +813,7 @@ fn main() {
     let mut r = Rng::from_env();
     let scale: u64 = std::env::var("VERIF_SCALE").ok().and_then(|s| s.parse().ok()).unwrap_or(1);
     let only: Option<String> = std::env::var("VERIF_FAMILY").ok();
-    let want = |f: &str| only.as_deref().map(|o| o.split(',').any(|x| x == f)).unwrap_or(true);
+    let want = |f: &'static str| { let w = only.as_deref().map(|o| o.split(',').any(|x| x == f)).unwrap_or(true); if w { *CUR_FAM.lock().unwrap() = f; } w };
     let mut st = Stats { counts: Default::default() };
     let mut ncase = 0u64;
 
@@ -1055,6 +1105,28 @@ fn main() {
         }
     }
 
+    // a stalled client that leaves a large response unread (what the server still had queued for it when its deadline
+    // fired must not make the close wait), and a crowd of 20 clients stalled right after authentication next to a client
+    // that logs in normally (anything handed out per authentication must be given back before the client is waited for)
+    if want("STALL") {
+        let cfg = Cfg { max: 10_000, expiry: 21_600, secret: None, timeout_s: 6, lim: None, proxy: None };
+        let mut conns = vec![plain(1, 2, 50, Beh::NoRead, None), plain(99, 5, 50 + 6000 - 40, Beh::Probe, Some(10))];
+        let end = 50 + 6000 + 6000 + 600;
+        let run = run_case(0, &cfg, &conns, None, end);
+        emit("STALL", 0, &cfg, &conns, None, end, &run);
+        st.hit("STALL.unread_response_at_the_deadline"); ncase += 1;
+        conns.clear();
+        let mut t = 50;
+        for j in 0..20i64 { conns.push(plain(j + 1, 2 + (j % 3) as u8, t, Beh::StopAt(5), nat_of(&Beh::StopAt(5), 0))); t += 20; }
+        let b = Beh::Login { pace: 0 };
+        conns.push(plain(98, 5, t + 200, b.clone(), nat_of(&b, 0)));
+        conns.push(plain(99, 5, t + 260, Beh::Probe, Some(10)));
+        let end = t + 260 + 6000 + 600;
+        let run = run_case(0, &cfg, &conns, None, end);
+        emit("STALL", 0, &cfg, &conns, None, end, &run);
+        st.hit("STALL.crowd_stalled_after_authentication"); ncase += 1;
+    }
+
     // one crowd case: 600 clients stalled (half silent, half inside a frame) must not delay the probe either
     // (an accept loop that stops accepting above some number of open connections)
     if want("STALL") {
@@ -1193,5 +1265,6 @@ fn main() {
 
     emit_note("cases", &ncase.to_string());
     emit_note("probe_bound_ms", &PROBE_BOUND.to_string());
+    emit_note("max_real_lag_of_the_runtime_thread_ms", &MAX_LAG_MS.load(std::sync::atomic::Ordering::Relaxed).to_string());
     for (k, v) in st.counts.iter() { emit_note(k, &v.to_string()); }
 }
